@@ -90,7 +90,7 @@ def check_history(cfg, hist, expected):
 
 def run_one(ch, env):
     cfg = common.draw_pyramid(ch, allow_deep=True)
-    large = ch.draw(150, kind="large_walk") == 149
+    large = ch.draw(800 if common.thorough() else 150, kind="large_walk") == 0     # rarer in the (100x longer) thorough tier
     if large:
         # now and then a pyramid with a thousand or more seed tiles (size-dependent code paths in the dispatcher):
         # a full generic pyramid of depth 6 (7 in the thorough tier), or a wide filtered TOAST one
